@@ -126,7 +126,10 @@ fn erased_heads(prop: &str, kind: &str) -> Option<&'static [&'static str]> {
         ("C14", "lib") => &["base_url"],
         ("C14", "requests") => &["imports", "struct", "required", "setters", "output", "url", "verb", "method"],
         ("C15", "lib") => &["authenticate", "fromenv", "nofromenv"],
-        ("C02", _) | ("C01", _) | ("C16", _) => &[],
+        ("C16", "examples") | ("C01", "examples") | ("C02", "examples") => &[],
+        (_, "examples") => return None,
+        ("C16", _) => return None,
+        ("C02", _) | ("C01", _) => &[],
         _ => return None,
     })
 }
@@ -149,7 +152,9 @@ pub fn run(prop: &str, tier: &str, seed: u64, out: &str) {
     silence_panics();
     let mut rep = Report::new(prop, tier, seed);
     let cases = gen_cases(prop, tier, seed, &mut rep);
-    let reals: Vec<Result<Emitted, String>> = model::par_map(&cases, |c| run_real(c));
+    // a generator that overflows its stack or hangs would take the harness with it: screen every case in a child process first
+    let screened: Vec<Result<(), String>> = model::par_map(&cases, |c| generation_survives(&serde_json::to_string(&c.doc).unwrap(), &c.cfg, 60));
+    let reals: Vec<Result<Emitted, String>> = model::par_map(&cases.iter().zip(screened.iter()).collect::<Vec<_>>(), |(c, s)| match s { Ok(()) => run_real(c), Err(e) => Err(format!("crash: {e}")) });
     let mut reqs: Vec<String> = vec![];
     let mut imps: Vec<String> = vec![];
     let mut which: Vec<(usize, &'static str)> = vec![];
@@ -160,6 +165,7 @@ pub fn run(prop: &str, tier: &str, seed: u64, out: &str) {
         rep.bump(&format!("derives:{}", c.cfg.derives.len()));
         let em = match r {
             Ok(e) => e,
+            Err(e) if e.starts_with("crash: ") => { rep.oracle_fail("generatorCrashed", crate::totality::crash_triggers(&c.doc), &case_text(c), e); continue; }
             Err(e) => {
                 let mut trig = vec![];
                 if c.cfg.derives.iter().any(|d| d.trim().is_empty()) { trig.push("emptyDeriveString".to_string()); }
@@ -195,6 +201,19 @@ pub fn run(prop: &str, tier: &str, seed: u64, out: &str) {
         reqs.push(format!("(emit_requests {hs} {cfg})"));
         imps.push(format!("(requests {})", rs.join(" ")));
         which.push((i, "requests"));
+        // examples
+        if c.cfg.examples {
+            let mut es: Vec<String> = vec![];
+            for (p, b) in &em.tree {
+                if let Some(stem) = p.strip_prefix("examples/").and_then(|x| x.strip_suffix(".rs")) {
+                    match summary::example_file(stem, &String::from_utf8_lossy(b)) { Ok(s) => es.push(s), Err(e) => rep.oracle_fail("unparsableOutput", vec![], &case_text(c), &format!("{p}: {e}")) }
+                }
+            }
+            es.sort();
+            reqs.push(format!("(emit_examples {hs} {cfg})"));
+            imps.push(format!("(examples {})", es.join(" ")));
+            which.push((i, "examples"));
+        }
         // lib.rs
         if let Some(b) = em.tree.get("src/lib.rs") {
             match summary::lib_rs(&String::from_utf8_lossy(b)) {
